@@ -179,7 +179,7 @@ Qed.
 
 Lemma J3_step a b : pstep c g p a b -> J3c a -> J3c b.
 Proof.
-  intros St. destruct St as [t Cq I|t D I|t cl ca done x o t' cl' ca' D Q Hin Hnd Hinc I P Hx Cr Nm E
+  intros St. destruct St as [t Cq I Ev0|t D I Ev0|t cl ca done x o t' cl' ca' D Q Hin Hnd Hinc I P Hx Cr Nm E
                             |t a cl ca done I P|t a ca done I P|t x done Hx I|t done I Cr]; unfold J3c.
   - (* cancel *)
     intros [A1 A2 A3 A4 A5 A6 A7 A8]. constructor; auto.
@@ -325,7 +325,7 @@ Qed.
 
 Lemma J3b_step a b : pstep c g p a b -> J3bc a -> J3bc b.
 Proof.
-  intros St. destruct St as [t Cq I|t D I|t cl ca done x o t' cl' ca' D Q Hin Hnd Hinc I P Hx Cr Nm E
+  intros St. destruct St as [t Cq I Ev0|t D I Ev0|t cl ca done x o t' cl' ca' D Q Hin Hnd Hinc I P Hx Cr Nm E
                             |t a cl ca done I P|t a ca done I P|t x done Hx I|t done I Cr]; unfold J3bc.
   - apply J3b_mono; auto. intros e [<-|He]; auto.
   - apply J3b_mono; auto. intros e [<-|He]; auto.
